@@ -11,6 +11,7 @@ sys.path.insert(0, os.path.dirname(os.path.abspath(__file__)))
 import vlib
 from vlib import Infra, log
 import specs
+specs.load_all()
 
 
 def main():
